@@ -1713,4 +1713,102 @@ theorem predFormat_colStd (fx : Fixes) (sp : Spec) (a0 : Answer) (as0 : List PyV
     simpa [Spec.pfmt, Fmt.kind, Fmt.hinted] using this
 
 
+
+
+theorem kwCols_isDict (R : Rows) : (kwCols R).isDict = true := by
+  cases R with
+  | nil => rfl
+  | cons r R => rfl
+
+theorem pmfTable_head (sp : Spec) (r : Answer × List PyVal) (R' : Rows) (ht : pmfTable sp (r :: R') = true) :
+    pmfTable sp [r] = true := by
+  simp only [pmfTable, Bool.or_eq_true, Bool.and_eq_true, decide_eq_true_eq, List.all_eq_true, beq_iff_eq] at ht ⊢
+  rcases ht with h | h
+  · exact Or.inl h
+  · exact Or.inr ⟨h.1, by intro x hx; simp at hx; subst hx; rfl⟩
+
+/-- first-call detection on an un-hinted column-major answer -/
+theorem detect_cols (fx : Fixes) (sp : Spec) (pol : Policy) (st1 : State) (c0 : PyVal) (cs' : List PyVal) (as0 : List PyVal)
+    (rows' : List (List PyVal)) (R' : Rows)
+    (hlay : sp.layout = .col) (hun : sp.fmt.hinted = false)
+    (hl : st1.layout = Option.none)
+    (hn : (zipWithAns pol cs' rows').length = rows'.length) (hR' : R' = zipWithAns pol cs' rows')
+    (hf : firstRowOK fx sp (pol c0 as0) as0 = true)
+    (hc : colFirstOK sp (pol c0 as0) (rows'.length + 1) = true)
+    (ht : pmfTable sp ((pol c0 as0, as0) :: R') = true) :
+    detect fx (scripted sp pol) st1 (.batch (c0 :: cs') (as0 :: rows')) (renderCol sp ((pol c0 as0, as0) :: R')) 1 =
+      .ok { st1 with layout := some .col, hasKw := sp.kw, fmt := some sp.pfmt } := by
+  set a0 := pol c0 as0 with ha0
+  obtain ⟨⟨col0, rest, hcols, hc0⟩, hncols, hfirst, hnd, hpos⟩ := colsOf_shape sp a0 as0 R' hun ht
+  obtain ⟨⟨col1, rest1, hcols1, _⟩, hncols1, _, _, _⟩ := colsOf_shape sp a0 as0 [] hun (pmfTable_head sp _ _ ht)
+  simp only [colFirstOK, hun, Bool.false_eq_true, ↓reduceIte, Bool.and_eq_true, Bool.or_eq_true, bne_iff_ne, ne_eq,
+    decide_eq_true_eq, Bool.not_eq_true', Bool.and_eq_false_iff, beq_eq_false_iff_ne] at hc
+  obtain ⟨hcK, hshape⟩ := hc
+  have hK : sp.fmt = .PM → 2 ≤ a0.pmf.length := by
+    intro h; rcases hcK with h' | h'
+    · exact absurd h h'
+    · exact h'
+  have hrend : ∀ R : Rows, R ≠ [] → renderCol sp R = mkSeq sp.tup (colsOf sp R ++ (if sp.kw then [kwCols R] else [])) := by
+    intro R hR
+    rw [renderCol_eq sp R hR]
+    cases hk : sp.kw <;> simp [hun]
+  have hP := hrend ((a0, as0) :: R') (by simp)
+  have hP1 := hrend [(a0, as0)] (by simp)
+  rw [hcols] at hP
+  rw [hcols1] at hP1
+  -- batch_order
+  have hRl : R'.length = rows'.length := by rw [hR']; exact hn
+  have hrl : rest.length + 1 = ncols sp a0 := by rw [← hncols, hcols]; simp
+  have hrl1 : rest1.length + 1 = ncols sp a0 := by rw [← hncols1, hcols1]; simp
+  have hbo : batchOrder fx
+      (do let a1 ← firstOf (.batch (c0 :: cs') (as0 :: rows')); let r ← safeCall fx (scripted sp pol) (some 1) a1; pure r.1)
+      (renderCol sp ((a0, as0) :: R')) (.batch (c0 :: cs') (as0 :: rows')) 1 = .ok .col := by
+    have hpre := batchOrderPre_cols fx sp.tup col0 (rest ++ (if sp.kw then [kwCols ((a0, as0) :: R')] else [])) (c0 :: cs') (as0 :: rows')
+      (by simp [hc0, hRl])
+    simp only [List.cons_append] at hP
+    rw [hP]
+    unfold batchOrder
+    by_cases hsq : (rest ++ (if sp.kw then [kwCols ((a0, as0) :: R')] else [])).length + 1 = (as0 :: rows').length
+    · rw [if_pos hsq] at hpre
+      have hprobe : scripted sp pol (.batch [c0] [as0]) = .ok (renderCol sp [(a0, as0)]) := by
+        simp [scripted, hlay, zipWithAns, ha0]
+      have hne1 : ¬ ((rest1 ++ (if sp.kw then [kwCols [(a0, as0)]] else [])).length + 1 = 1) := by
+        intro h1
+        have e1 : (rest1 ++ (if sp.kw then [kwCols [(a0, as0)]] else [])).length = (rest ++ (if sp.kw then [kwCols ((a0, as0) :: R')] else [])).length := by
+          cases hkw : sp.kw <;> simp only [Bool.false_eq_true, ↓reduceIte, List.append_nil, List.length_append, List.length_cons, List.length_nil] <;> omega
+        rw [e1] at h1
+        have hn1 : rows'.length + 1 = 1 := by rw [h1] at hsq; simpa using hsq.symm
+        have hnc : ncols sp a0 + (if sp.kw then 1 else 0) = 1 := by
+          cases hkw : sp.kw <;> simp only [hkw, Bool.false_eq_true, ↓reduceIte, List.append_nil, List.length_append, List.length_cons, List.length_nil] at h1 ⊢ <;> omega
+        rcases hshape with h | h
+        · exact h hnc
+        · exact h hn1
+      simp only [bind, Except.bind, hpre, firstOf, safeCall, hprobe, pure, Except.pure, hP1, List.cons_append, lenE_mkSeq, List.length_cons]
+      rw [if_neg hne1]
+    · rw [if_neg hsq] at hpre
+      simp only [bind, Except.bind, hpre, pure, Except.pure]
+  -- kwargs
+  have hk : hasKwargs (renderCol sp ((a0, as0) :: R')) .col = sp.kw := by
+    rw [hP]
+    cases hkw : sp.kw
+    · simp only [Bool.false_eq_true, ↓reduceIte, List.append_nil]
+      obtain ⟨ini, lastc, hil⟩ : ∃ ini lastc, PyVal.list (.lrn 0) col0 :: rest = ini ++ [lastc] := by
+        rcases List.eq_nil_or_concat (PyVal.list (.lrn 0) col0 :: rest) with h | ⟨i, l, h⟩
+        · simp at h
+        · exact ⟨i, l, by rw [h, List.concat_eq_append]⟩
+      rw [hil, hasKwargs_col]
+      have : lastc ∈ colsOf sp ((a0, as0) :: R') := by rw [hcols, hil]; simp
+      exact hnd lastc this
+    · simp only [↓reduceIte]
+      rw [hasKwargs_col, kwCols_isDict]
+  have hfr : firstRow (renderCol sp ((a0, as0) :: R')) .col sp.kw = .ok (colStd sp a0 as0) := by
+    rw [hP]
+    rw [hcols] at hfirst
+    exact firstRow_cols sp.tup sp.kw col0 rest _ _ hfirst
+  have hpf := predFormat_colStd fx sp a0 as0 hun hf hK
+  unfold detect
+  simp only [bind, Except.bind, pure, Except.pure] at hbo
+  simp only [hl, bind, Except.bind, pure, Except.pure, hbo, hk, hfr, hpf]
+
+
 end Coba.C15
